@@ -639,6 +639,11 @@ def run(ctx):
     from . import c01
     from .common import shared
 
+    from . import c19 as _c19
+
+    def _patch_axes(ctx_):
+        _c19.rule_d(ctx_, ctx_.model.func(_c19.MOD, "Patches.__init__"))
+    shared(ctx, "C20.c", _patch_axes, why="Patches is the in-tree consumer of to_cartesian_indexing: a length along matrix axis i must be converted with the voxel size of the Cartesian axis the helper names for i")
     from . import c11 as _c11
     shared(ctx, "C20.c", _c11.rule_axis_reduction, why="addressing an axis by Cartesian name or matrix index in a reduction (and in Image.slice, which reduces first) must drop that axis from the data, the dimensions and the origin alike")
     shared(ctx, "C20.c", c01.rule_b, why="CoordinateSystem.coordinate / voxel are the consumers of the axis table; they must place every axis where the table says")
